@@ -17,6 +17,9 @@ RULE = ('metamorphic: a well-formed base file (spec serializer, canonical '
         'options additionally hold the new keys (integers converted). '
         'Non-trivial = extension applied to a header that already has '
         'options; distinct = fingerprint of the extended bytes.')
+RULE += (
+         ' Process axes (DESIGN 2.8): 2 of 16 shards run under python -O, 4 '
+         'of 16 after a hostile warm-up of the library.')
 FLOOR = {'quick': 20000, 'thorough': 400000}
 REQUIRED_REACH = ['reader.py:']
 REQUIRED_COUNTERS = ['extensions_checked', 'extended:container',
